@@ -20,6 +20,7 @@ class Program:
         # new helper functions are inlined into their callers before lambdas are collected (the rewritten bodies hold new nodes)
         if not os.environ.get('BLOCHSA_NO_GLOBAL_NORM'):
             self._unroll_tables()
+            self._beta_closures()
             self._inline_new_functions()
         self._add_lambdas()
         self._index()
@@ -39,6 +40,19 @@ class Program:
         for f in self.functions:
             for b in f.d.get('overrides', []) if hasattr(f, 'd') else []:
                 self._overriders.setdefault(b + f.sig, []).append(f)
+
+    def _beta_closures(self):
+        """calls of pure single-expression local closures are replaced by the expression (K-NORM beta_pure_closures)"""
+        from .knorm import beta_pure_closures
+        self.beta_closures = []
+        for f in self.functions:
+            if f.kind == 'lambda' or not f.body or '/third_party/' in f.file:
+                continue
+            nb = beta_pure_closures(self, f)
+            if nb is not None:
+                f.body = nb
+                f.d = dict(f.d, body=nb)
+                self.beta_closures.append(f.name)
 
     # ---- dispatch tables of member pointers -----------------------------------------------------------
     def _unroll_tables(self):
